@@ -263,8 +263,8 @@ def hist_init(tier, seed):
     specs = _specs(tier, seed)
     if tier == "quick":  # one back-end per spec, alternating, rotated by the seed; deeper histories
         backends = [("svg", "tex")[(i + seed) % 2] for i in range(len(specs))]
-        return {"ctx": {"specs": specs, "backends": backends}, "roots": [[]], "depth": 8}
-    return {"ctx": {"specs": specs, "backends": None}, "roots": [[]], "depth": 7}
+        return {"ctx": {"specs": specs, "backends": backends}, "roots": [[]], "depth": 8, "max_states": 5000}
+    return {"ctx": {"specs": specs, "backends": None}, "roots": [[]], "depth": 7, "max_states": 200000}
 
 
 def hist_expand(ctx, h, acc):
